@@ -1098,6 +1098,9 @@ def cases_c16(tier, seed):
         k = seed * 100 + i
         base.append(("h%d" % i, [gen.g1(k, ntx=8), gen.g2(k, nkeys=40, rounds=4), gen.g4(k, ntx=4), gen.g5(k, ntx=5), gen.g1(k, universe=24, long_keys=True, nops=15, ntx=6),
                                  gen.g_c6(k)][i % 6]))
+    # fill / mass-delete cycles with a close + reopen in between: at small page sizes the stored free list spans several
+    # pages when the file is reopened, and with strict mode on the next commit is self-checked against it
+    base.append(("h6", gen.g10(seed * 100 + 6, "bigfree", ntx=6, pin=None, reopen_every=2)))
     cases = []
     for ci, cfg in enumerate(cfgs):
         for (hn, text) in base:
